@@ -81,6 +81,9 @@ type c26Srv struct {
 	pubSeen  int64
 	log      []string
 
+	life    sync.RWMutex // held shared by request handlers, exclusively by a restart
+	minConn int          // connections with a lower index belong to a previous life of the server
+
 	reqCount int64
 	lastReq  time.Time
 	faults   []c26Fault
@@ -108,6 +111,12 @@ func (s *c26Srv) sessionOf(sc *refpeer.SrvConn, m *refpeer.Msg) (string, bool) {
 }
 
 func (s *c26Srv) handle(sc *refpeer.SrvConn, m *refpeer.Msg) {
+	// a restarted server does not see requests of connections of its previous life
+	s.life.RLock()
+	defer s.life.RUnlock()
+	if sc.Index < s.minConn {
+		return
+	}
 	s.tick()
 	if s.srv.Default(sc, m) {
 		return
@@ -336,6 +345,11 @@ func (s *c26Srv) tickN(n int64) {
 }
 
 func (s *c26Srv) inject(kind string) {
+	if kind == "restart" {
+		s.life.Lock()
+		defer s.life.Unlock()
+		s.minConn = s.srv.NumConns()
+	}
 	s.mu.Lock()
 	s.logf("FAULT %s", kind)
 	if s.reconnecting {
@@ -411,7 +425,15 @@ func c26One(c *fw.Ctx, cs c26Case) {
 				a.handles = append(a.handles, handle)
 				reqs = append(reqs, opcua.NewMonitoredItemCreateRequestWithDefaults(ua.NewStringNodeID(1, fmt.Sprintf("n%d", handle)), ua.AttributeIDValue, handle))
 			}
-			_, err = a.sub.Monitor(x, ua.TimestampsToReturnBoth, reqs...)
+			// items of one subscription created with different TimestampsToReturn values (the client recreates
+			// them in one request per value)
+			if len(reqs) > 1 {
+				_, err = a.sub.Monitor(x, ua.TimestampsToReturnSource, reqs[len(reqs)-1:]...)
+				reqs = reqs[:len(reqs)-1]
+			}
+			if err == nil {
+				_, err = a.sub.Monitor(x, ua.TimestampsToReturnBoth, reqs...)
+			}
 		}
 		cancel()
 		if err != nil {
@@ -678,7 +700,7 @@ var c26Kinds = []string{"channel-loss", "session-loss", "restart"}
 var c26Transfers = []string{"supported", "unsupported", "invalid"}
 
 func c26Run(c *fw.Ctx) error {
-	n := int64(c.Pick(90, 4000))
+	n := int64(c.Pick(240, 6000))
 	for i := int64(0); i < n; i++ {
 		if int(i%int64(c.NBatch)) != c.Batch || i < c.Resume {
 			continue
@@ -687,16 +709,21 @@ func c26Run(c *fw.Ctx) error {
 		k := int(i / int64(c.NBatch))
 		cs := c26Case{Index: i, Seed: r.Int63(), Subs: 1 + r.Intn(3), Items: 1 + r.Intn(3), Transfer: c26Transfers[(k/3)%3]}
 		nf := 1
-		if r.Intn(3) == 0 {
+		if r.Intn(2) == 0 {
 			nf = 2 + r.Intn(2)
 		}
 		for f := 0; f < nf; f++ {
 			kind := c26Kinds[k%3]
+			after := int64(1 + r.Intn(12))
 			if f > 0 {
 				kind = c26Kinds[r.Intn(3)]
+				// later faults hit the reconnect (few requests later) or the steady state after it (many requests
+				// later: the subscriptions are restored a second and third time)
+				if r.Intn(2) == 0 {
+					after = int64(25 + r.Intn(40))
+				}
 			}
-			// the first fault hits the steady state, later ones mostly the reconnect (few requests later)
-			cs.Faults = append(cs.Faults, c26Fault{After: int64(1 + r.Intn(12)), Kind: kind})
+			cs.Faults = append(cs.Faults, c26Fault{After: after, Kind: kind})
 		}
 		c.Journal(i, cs)
 		c26One(c, cs)
@@ -713,11 +740,11 @@ func c26Run(c *fw.Ctx) error {
 func init() {
 	fw.Register("C26", fw.Spec{
 		Plan: func(tier string) fw.Plan {
-			p := fw.Plan{Batches: 8, TimeoutS: 1500, MinNontrivial: 80, Level: "exploration",
-				Rule:        "the real client (auto-reconnect) with 1-3 subscriptions of 1-3 items against the scripted server, which models subscriptions per session with retransmission queues, publishes data and keep-alives every 1-4 ms throughout and keeps a ledger of every message written and every acknowledgement given; 1-3 faults (connections dropped with the session kept, with the sessions forgotten, or a restart that also forgets the subscriptions and restarts the ids), the first after 1-12 requests of steady state, the others 1-12 requests later (mostly inside the reconnect); TransferSubscriptions supported / unsupported / all ids invalid; oracle after the client is stably Connected: every subscription of the application receives a newly sent message containing all of its items (10000 heartbeats), then under keep-alive traffic every message the application received from a subscription that still exists is acknowledged (8000 heartbeats), no message is acknowledged again on a connection on which its result was already returned, none is acknowledged that was never sent, and none is acknowledged Good without having reached the application; distinct = fault histories",
+			p := fw.Plan{Batches: 8, TimeoutS: 1500, MinNontrivial: 200, Level: "exploration",
+				Rule:        "the real client (auto-reconnect) with 1-3 subscriptions of 1-3 items against the scripted server, which models subscriptions per session with retransmission queues, publishes data and keep-alives every 1-4 ms throughout and keeps a ledger of every message written and every acknowledgement given; 1-3 faults (connections dropped with the session kept, with the sessions forgotten, or a restart that also forgets the subscriptions and restarts the ids), the first after 1-12 requests of steady state, the others 1-12 requests later (inside the reconnect) or 25-64 requests later (after it: restored subscriptions are restored again); items of a subscription are created with two different TimestampsToReturn values; TransferSubscriptions supported / unsupported / all ids invalid; oracle after the client is stably Connected: every subscription of the application receives a newly sent message containing all of its items (10000 heartbeats), then under keep-alive traffic every message the application received from a subscription that still exists is acknowledged (8000 heartbeats), no message is acknowledged again on a connection on which its result was already returned, none is acknowledged that was never sent, and none is acknowledged Good without having reached the application; distinct = fault histories",
 				Assumptions: []string{"heartbeat clock; a client that does not reach a stable Connected state is inconclusive here (C25 decides that)"}}
 			if tier == "thorough" {
-				p.Batches, p.TimeoutS, p.MinNontrivial = 16, 3400, 3000
+				p.Batches, p.TimeoutS, p.MinNontrivial = 16, 3400, 5000
 			}
 			return p
 		},
